@@ -15,9 +15,33 @@ Theorem C09_label_patcher_no_panic :
   forall i, (0 <=? LabelPatch.i_cur i) && (LabelPatch.i_cur i <? zlen (LabelPatch.i_batches i)) = true ->
   LabelPatch.patch_pod_batch_label i <> Panic.
 Proof. exact Proofs.LabelPatch.patch_total. Qed.
+Print Assumptions C09_label_patcher_no_panic.
 
 (* API conversion is total *)
 Theorem C09_conversion_no_panic :
   (forall a, Conversion.rollout_to_beta a <> Panic) /\ (forall b, Conversion.rollout_to_alpha b <> Panic) /\ (forall a, Conversion.br_to_beta a <> Panic).
 Proof. exact Proofs.Conversion.conversion_total. Qed.
 Print Assumptions C09_conversion_no_panic.
+
+(* ---- validation half: the structural promises the controllers depend on ---- *)
+From RV Require Model.Validate Corr.Validate Proofs.Validate.
+
+(* a Rollout the validating webhook admits has a non-empty plan, every step with a valid positive replicas value, and
+   EVERY pair of steps of the same type (number / percentage) in non-decreasing order *)
+Theorem C09_admitted_steps_are_non_empty_and_ordered : forall r others, Validate.create_ok r others = true -> Corr.Validate.steps_promise r = true.
+Proof. exact Proofs.Validate.admitted_steps_promise. Qed.
+Print Assumptions C09_admitted_steps_are_non_empty_and_ordered.
+
+(* one Rollout per workload *)
+Theorem C09_one_rollout_per_workload : forall r others, Validate.create_ok r others = true -> Validate.conflicts r others = false.
+Proof. exact Proofs.Validate.admitted_has_no_conflict. Qed.
+Print Assumptions C09_one_rollout_per_workload.
+
+(* while the live Rollout is Progressing or Terminating an admitted update keeps the workload reference, the traffic
+   routing, the rolling style and the number of steps -- the step index the controller persists stays inside the plan *)
+Theorem C09_no_structural_change_while_progressing : forall old new others same, Validate.update_ok old new others true same = true ->
+  Validate.vr_key (Validate.v_ref old) = Validate.vr_key (Validate.v_ref new) /\ same = true /\
+  Validate.rolling_style old = Validate.rolling_style new /\
+  zlen (Validate.steps_of (Validate.v_strategy old)) = zlen (Validate.steps_of (Validate.v_strategy new)).
+Proof. exact Proofs.Validate.update_keeps_structure. Qed.
+Print Assumptions C09_no_structural_change_while_progressing.
